@@ -697,6 +697,29 @@ package soyhtml
 //@   at call url.QueryEscape#0 after set enc = res
 //@   at call url.QueryEscape#0 after set done = true
 //@   ensures[result-is-the-encoders-output;C16] done && typeis(result, data.String) && unbox(result, data.String) == enc
+// jsEscapeString hands every byte of the value either to
+// template.JSEscapeString, in chunks that start where the last one ended, or -
+// the bytes of one character beyond the basic plane - to the surrogate-pair
+// writer, with the halves utf16.EncodeRune gives for it, all into one buffer in
+// order. (That JSEscapeString is right for its chunks is trusted.)
+//@ func jsEscapeString
+//@   like renderFn
+//@   props C16 C08 C09
+//@   nosafety
+//@   ghost gr rune = 0
+//@   ghost h1 rune = 0
+//@   ghost h2 rune = 0
+//@   at call utf8.DecodeRuneInString#0 assert[characters-read-one-after-the-other;C16] substr(arg0, str, i) && len(arg0) == len(str) - i
+//@   at call utf8.DecodeRuneInString#0 after set gr = res0
+//@   at call template.JSEscapeString#1 assert[the-text-before-the-character-goes-to-the-escaper;C16] substr(arg0, str, last) && len(arg0) == i - last
+//@   at call utf16.EncodeRune#0 assert[the-halves-of-this-very-character;C16] arg0 == gr && gr > 65535
+//@   at call utf16.EncodeRune#0 after set h1 = res0
+//@   at call utf16.EncodeRune#0 after set h2 = res1
+//@   at call fmt.Fprintf#0 assert[written-as-its-two-surrogates-high-then-low;C16] len(arg2) == 2 && unbox(arg2[0], rune) == h1 && unbox(arg2[1], rune) == h2
+//@   at call template.JSEscapeString#0 assert[the-rest-goes-to-the-escaper;C16] substr(arg0, str, last) && len(arg0) == len(str) - last
+//@   loop 0
+//@     invariant[chunks-start-where-the-last-one-ended;C16] 0 <= last && last <= i && i <= len(str)
+//@     decreases len(str) - i
 //@ func directiveEscapeJsString
 //@   like renderFn
 //@   props C16 C08 C09
@@ -705,9 +728,9 @@ package soyhtml
 //@   ghost enc string = ""
 //@   ghost done bool = false
 //@   at call data.Value.String#0 after set vs = res
-//@   at call template.JSEscapeString#0 assert[encodes-the-value;C16] arg0 == vs
-//@   at call template.JSEscapeString#0 after set enc = res
-//@   at call template.JSEscapeString#0 after set done = true
+//@   at call soyhtml.jsEscapeString#0 assert[encodes-the-value;C16] arg0 == vs
+//@   at call soyhtml.jsEscapeString#0 after set enc = res
+//@   at call soyhtml.jsEscapeString#0 after set done = true
 //@   ensures[result-is-the-encoders-output;C16] done && typeis(result, data.String) && unbox(result, data.String) == enc
 //@ func directiveJson
 //@   nomethod[value-types-are-encoded-by-encoding/json's-own-rules;C16] data.Int.MarshalJSON data.Float.MarshalJSON data.String.MarshalJSON data.Bool.MarshalJSON data.List.MarshalJSON data.Map.MarshalJSON data.Int.MarshalText data.Float.MarshalText data.String.MarshalText data.Bool.MarshalText
